@@ -4,22 +4,183 @@
 // anything unless the verif tag is set, and then it contains no code).
 package limit
 
+// ---------------------------------------------------------------------------------------------
+// Change listeners (C16). `delivered` is the last value a listener callback received; a callback
+// is assumed not to touch the limit it observes (A8).
+//@ ghost core.LimitChangeListener.delivered int
+//@ func elem:core.LimitChangeListener params limit
+//@   ensures delivered: #fn.delivered == limit
+//@   assigns #fn.delivered
+
+//@ define allDelivered(ls []core.LimitChangeListener, v int) bool = forall j int :: 0 <= j && j < len(ls) ==> ls[j].delivered == v
+//@ define appended(now []core.LimitChangeListener, before []core.LimitChangeListener, c core.LimitChangeListener) bool = len(now) == len(before) + 1 && now[len(before)] == c && (forall j int :: 0 <= j && j < len(before) ==> now[j] == before[j])
+
+// ---------------------------------------------------------------------------------------------
+// AIMD
 //@ type AIMDLimit
 //@   guarded mu: limit, listeners
 //@   immutable: name, increaseBy, backOffRatio, registry, commonSampler
 //@   inv[C04] lower: this.limit >= 1
 //@   inv cfg: this.increaseBy >= 1 && 0.0 < this.backOffRatio && this.backOffRatio <= 1.0
 
-//@ func (*AIMDLimit).notifyListeners
-//@   requires nn: l != nil
+//@ func NewAIMDLimit
+//@   requires cfg: initialLimit >= 1 && 0.0 < backOffRatio && backOffRatio <= 1.0
+//@   ensures[C04] inv_established: inv(result)
+//@   ensures[C04,C06] fields: result.limit == initialLimit && result.backOffRatio == backOffRatio && result.increaseBy == max(1, increaseBy) && len(result.listeners) == 0
+
+//@ func (*AIMDLimit).EstimatedLimit
+//@   ensures[C04,C16] value: result == l.limit
 //@   assigns nothing
+//@   owns[C17]
+
+//@ func (*AIMDLimit).NotifyOnChange
+//@   ensures[C16] registered: appended(l.listeners, old(l.listeners), consumer)
+//@   ensures[C16] limit_unchanged: l.limit == old(l.limit)
+//@   assigns l.listeners
+//@   owns[C17]
+
+//@ func (*AIMDLimit).notifyListeners
+//@   requires locked: held(l.mu)
+//@   loop 1 invariant[C16] delivered: -1 <= #rangeindex && #rangeindex < len(l.listeners) && (forall j int :: 0 <= j && j <= #rangeindex ==> l.listeners[j].delivered == newLimit)
+//@   ensures[C16] all_delivered: allDelivered(l.listeners, newLimit)
+//@   assigns all core.LimitChangeListener.delivered
+//@   owns[C17]
 
 //@ func (*AIMDLimit).OnSample
-//@   maintains[C04] l
+//@   maintains[C04,C06,C07] l
 //@   requires in: 0 <= rtt && 0 <= inFlight
 //@   requires big: l.limit < 1<<53 && l.increaseBy < 1<<53
 //@   ensures[C06] drop_rule: didDrop ==> l.limit == max(1, min(old(l.limit)-1, int(floor(float64(old(l.limit))*l.backOffRatio))))
+//@   ensures[C06] drop_never_raises: didDrop ==> l.limit <= old(l.limit) && (old(l.limit) > 1 ==> l.limit < old(l.limit))
 //@   ensures[C07] gate: !didDrop && inFlight < old(l.limit) ==> l.limit == old(l.limit)
 //@   ensures[C07] growth: !didDrop && inFlight >= old(l.limit) ==> l.limit == old(l.limit) + l.increaseBy
+//@   ensures[C16] notified: l.limit != old(l.limit) ==> allDelivered(l.listeners, l.limit)
+//@   ensures[C16] listeners_kept: l.listeners == old(l.listeners)
+//@   ensures[C20] sampled_once: ncalls("(*core.CommonMetricSampler).Sample") == 1 && callrecv("(*core.CommonMetricSampler).Sample", 0) == l.commonSampler && callarg("(*core.CommonMetricSampler).Sample", 0, 0) == rtt && callarg("(*core.CommonMetricSampler).Sample", 0, 1) == inFlight && callarg("(*core.CommonMetricSampler).Sample", 0, 2) == didDrop
+//@   safety[C04]
+//@   owns[C17]
+
+//@ func (*AIMDLimit).BackOffRatio
+//@   assigns nothing
+//@   owns[C17]
+
+// ---------------------------------------------------------------------------------------------
+// Vegas. The no-load RTT measurement is the default MinimumMeasurement (a user-supplied
+// measurement of another kind is outside the proof). cap = max(maxLimit, initial limit) is ghost.
+//@ ghost VegasLimit.cap float64
+//@ type VegasLimit
+//@   guarded mu: estimatedLimit, rttNoLoad, probeJitter, probeCount, listeners
+//@   immutable: maxLimit, smoothing, alphaFunc, betaFunc, thresholdFunc, increaseFunc, decreaseFunc, rttSampleListener, commonSampler, probeMultipler, registry, logger
+//@   dyntype rttNoLoad: *measurements.MinimumMeasurement
+//@   inv[C04] bounds: isFinite(this.estimatedLimit) && 1.0 <= this.estimatedLimit && this.estimatedLimit <= this.cap
+//@   inv[C04] cap: isFinite(this.cap) && float64(this.maxLimit) <= this.cap && this.cap <= 1.0e9 && 0 <= this.maxLimit
+//@   inv cfg: isFinite(this.smoothing) && 0.0 <= this.smoothing && this.smoothing <= 1.0 && 1 <= this.probeMultipler && this.probeMultipler <= 1000000000
+//@   inv[C15] probe: isFinite(this.probeJitter) && 0.5 <= this.probeJitter && this.probeJitter < 1.0 && 0 <= this.probeCount && this.probeCount <= 1<<62
+//@   inv[C04,C15] baseline: ref(this.rttNoLoad) != nil && inv(vegasMin(this)) && vegasMin(this).value <= 4611686018427387904.0
+//@   inv deps: this.logger != nil && this.rttSampleListener != nil
+
+//@ define vegasMin(l *limit.VegasLimit) *measurements.MinimumMeasurement = as(l.rttNoLoad, "*measurements.MinimumMeasurement")
+//@ define vegasBase(l *limit.VegasLimit) float64 = as(l.rttNoLoad, "*measurements.MinimumMeasurement").value
+
+// Field contracts: what a valid configuration promises about the function-valued settings.
+// The defaults installed by the constructor are proved against them (implements).
+//@ func limit.VegasLimit.alphaFunc params estimatedLimit
+//@   pure
+//@   ensures[C08] ordered: result >= apply(owner.thresholdFunc, "limit.VegasLimit.thresholdFunc", estimatedLimit) && result <= apply(owner.betaFunc, "limit.VegasLimit.betaFunc", estimatedLimit)
+//@ func limit.VegasLimit.betaFunc params estimatedLimit
+//@   pure
+//@   ensures[C07,C08] positive: result >= 1 && result <= 1<<31
+//@ func limit.VegasLimit.thresholdFunc params estimatedLimit
+//@   pure
+//@   ensures[C07,C08] positive: result >= 1
+//@ func limit.VegasLimit.increaseFunc params estimatedLimit
+//@   pure
+//@   ensures[C04,C08] grows: isFinite(estimatedLimit) ==> isFinite(result) && result >= estimatedLimit
+//@   ensures[C08] bounded_by_beta: isFinite(estimatedLimit) && 1.0 <= estimatedLimit && estimatedLimit <= 1.0e9 ==> result <= estimatedLimit + float64(apply(owner.betaFunc, "limit.VegasLimit.betaFunc", int(estimatedLimit)))
+//@ func limit.VegasLimit.decreaseFunc params estimatedLimit
+//@   pure
+//@   ensures[C04,C06,C08] shrinks: isFinite(estimatedLimit) ==> isFinite(result) && result <= estimatedLimit - 1.0
+
+//@ func NewVegasLimitWithRegistry$1
+//@   implements limit.VegasLimit.alphaFunc
+//@   requires nonneg: limit >= 0
+//@   ensures[C08] value: result >= 3
+//@ func NewVegasLimitWithRegistry$2
+//@   implements limit.VegasLimit.betaFunc
+//@   requires nonneg: limit >= 0
+//@   ensures[C08] value: result >= 6
+//@ func NewVegasLimitWithRegistry$3
+//@   implements limit.VegasLimit.thresholdFunc
+//@   requires nonneg: limit >= 0
+//@ func NewVegasLimitWithRegistry$4
+//@   implements limit.VegasLimit.increaseFunc
+//@   requires fin: isFinite(limit) && 0.0 <= limit && limit <= 4611686018427387904.0
+//@   ensures[C07] step: result >= limit + 1.0 && isFinite(result)
+//@ func NewVegasLimitWithRegistry$5
+//@   implements limit.VegasLimit.decreaseFunc
+//@   requires fin: isFinite(limit) && 0.0 <= limit && limit <= 4611686018427387904.0
+//@   ensures[C06] step: result <= limit - 1.0 && isFinite(result)
+
+//@ func newProbeJitter
+//@   inline
+
+//@ func (*VegasLimit).EstimatedLimit
+//@   maintains[C04] l
+//@   ensures[C04,C16] value: result == int(l.estimatedLimit) && result >= 1
+//@   assigns nothing
+//@   safety[C04]
+//@   owns[C17]
+
+//@ func (*VegasLimit).NotifyOnChange
+//@   ensures[C16] registered: appended(l.listeners, old(l.listeners), consumer)
+//@   ensures[C16] limit_unchanged: l.estimatedLimit == old(l.estimatedLimit)
+//@   assigns l.listeners
+//@   owns[C17]
+
+//@ func (*VegasLimit).notifyListeners
+//@   requires locked: held(l.mu)
+//@   requires fin: isFinite(newLimit) && 0.0 <= newLimit && newLimit <= 1.0e9
+//@   loop 1 invariant[C16] delivered: -1 <= #rangeindex && #rangeindex < len(l.listeners) && (forall j int :: 0 <= j && j <= #rangeindex ==> l.listeners[j].delivered == int(newLimit))
+//@   ensures[C16] all_delivered: allDelivered(l.listeners, int(newLimit))
+//@   assigns all core.LimitChangeListener.delivered
+//@   safety[C04]
+//@   owns[C17]
+
+//@ func (*VegasLimit).shouldProbe
+//@   requires locked: held(l.mu)
+//@   maintains l
+//@   ensures[C15] value: result <==> int(l.probeJitter * float64(l.probeMultipler) * l.estimatedLimit) <= l.probeCount
+//@   assigns nothing
+//@   safety[C04]
+//@   owns[C17]
+
+//@ func (*VegasLimit).updateEstimatedLimit
+//@   requires locked: held(l.mu)
+//@   requires sample: 0 < rtt && rtt <= 4611686018427387904 && 0 <= inFlight && inFlight < 1<<31
+//@   requires based: 0.0 < vegasBase(l) && vegasBase(l) <= float64(rtt)
+//@   maintains[C04,C06,C07] l
+//@   ensures[C06] drop_never_raises: didDrop ==> l.estimatedLimit <= old(l.estimatedLimit)
+//@   ensures[C06] drop_progress: didDrop && old(l.estimatedLimit) >= 2.0 ==> l.estimatedLimit <= old(l.estimatedLimit) - l.smoothing
+//@   ensures[C06] drop_floor: didDrop && old(l.estimatedLimit) < 2.0 ==> l.estimatedLimit < 2.0
+//@   ensures[C07] gate: !didDrop && float64(inFlight) * 2.0 < old(l.estimatedLimit) ==> l.estimatedLimit == old(l.estimatedLimit)
+//@   ensures[C15] baseline_untouched: l.rttNoLoad == old(l.rttNoLoad) && vegasBase(l) == old(vegasBase(l)) && l.probeCount == old(l.probeCount) && l.probeJitter == old(l.probeJitter)
+//@   ensures[C16] notified: int(l.estimatedLimit) != int(old(l.estimatedLimit)) ==> allDelivered(l.listeners, int(l.estimatedLimit))
+//@   ensures[C16] listeners_kept: l.listeners == old(l.listeners)
+//@   safety[C04]
+//@   owns[C17]
+
+//@ func (*VegasLimit).OnSample
+//@   requires sample: 0 <= rtt && rtt <= 4611686018427387904 && 0 <= inFlight && inFlight < 1<<31
+//@   requires counter_no_overflow: l.probeCount < 1<<62
+//@   maintains[C04,C06,C07,C15] l
+//@   ensures[C06] drop_never_raises: didDrop ==> l.estimatedLimit <= old(l.estimatedLimit)
+//@   ensures[C07] gate: !didDrop && float64(inFlight) * 2.0 < old(l.estimatedLimit) ==> l.estimatedLimit == old(l.estimatedLimit)
+//@   ensures[C15] baseline_bound: vegasBase(l) == 0.0 || vegasBase(l) <= float64(rtt)
+//@   ensures[C15] baseline_observed: vegasBase(l) == float64(rtt) || vegasBase(l) == old(vegasBase(l))
+//@   ensures[C15] probe_resets: ref(l.rttNoLoad) != ref(old(l.rttNoLoad)) ==> l.probeCount == 0 && vegasBase(l) == float64(rtt) && fresh(ref(l.rttNoLoad))
+//@   ensures[C15] probe_recurs: l.probeCount == 0 || (l.probeCount == old(l.probeCount) + 1 && float64(l.probeCount) < l.probeJitter * float64(l.probeMultipler) * old(l.estimatedLimit))
+//@   ensures[C16] notified: int(l.estimatedLimit) != int(old(l.estimatedLimit)) ==> allDelivered(l.listeners, int(l.estimatedLimit))
+//@   ensures[C16] listeners_kept: l.listeners == old(l.listeners)
+//@   ensures[C20] sampled_once: ncalls("(*core.CommonMetricSampler).Sample") == 1 && callrecv("(*core.CommonMetricSampler).Sample", 0) == l.commonSampler && callarg("(*core.CommonMetricSampler).Sample", 0, 0) == rtt && callarg("(*core.CommonMetricSampler).Sample", 0, 1) == inFlight && callarg("(*core.CommonMetricSampler).Sample", 0, 2) == didDrop
 //@   safety[C04]
 //@   owns[C17]
